@@ -32,7 +32,7 @@ Local Open Scope string_scope.
 Inductive rval : Type :=
 | RIn (ms : list msg)
 | RModel (chunks : list chunk) (m : msg)
-| RTools (o : tout) (results : list tmsg) (direct : bool)
+| RTools (o : tout) (results : res (list tmsg)) (direct : bool)
 | RFinal (m : msg).
 
 Definition kChat : key := 2%N.
@@ -56,7 +56,7 @@ Record rstate : Type := mkRS {
 
 Section ReactGraph.
   Variable tn : list call -> res (list tmsg).
-  Variable tns : list call -> res (list string * list emitted).
+  Variable tns : list call -> res (list string * list emitted * option N).
   Variable rd : string -> bool.
   Variable rd_nonempty : bool.
   Variable modifier : list msg -> list msg.
@@ -117,14 +117,10 @@ Section ReactGraph.
     let s1 := mkRS (rs_script s) (rs_messages s ++ [m]) rdi (rs_inputs s) (rs_rounds s ++ [m_calls m]) (rs_emits s) in
     match tools_out tn tns md (m_calls m) with
     | Ok o =>
-        match tout_results o with
-        | Ok results =>
-            (Ok (RTools o results (is_some rdi)),
-             mkRS (rs_script s) (rs_messages s1) rdi (rs_inputs s) (rs_rounds s1)
-                  (rs_emits s ++ emitted_results visible (m_calls m) results))
-        | Err e => (Err (cToolsBase + e), s1)
-        | Panic => (Panic, s1)
-        end
+        let rr := tout_results o in
+        (Ok (RTools o rr (is_some rdi)),
+         mkRS (rs_script s) (rs_messages s1) rdi (rs_inputs s) (rs_rounds s1)
+              (rs_emits s ++ match rr with Ok results => emitted_results visible (m_calls m) results | _ => [] end))
     | Err e => (Err (cToolsBase + e), s1)
     | Panic => (Panic, s1)
     end.
@@ -133,8 +129,10 @@ Section ReactGraph.
     match rs_rd s with
     | Some i =>
         match tout_direct i o with
-        | Some r => (Ok (RFinal (tool_msg r)), s)
-        | None => (Err cNoDirect, s)
+        | Ok (Some r) => (Ok (RFinal (tool_msg r)), s)
+        | Ok None => (Err cNoDirect, s)
+        | Err e => (Err (cToolsBase + e), s)
+        | Panic => (Panic, s)
         end
     | None => (Err cNoDirect, s)
     end.
@@ -145,7 +143,9 @@ Section ReactGraph.
         if N.eqb k kChat then
           match v with
           | RIn ms => exec_chat ms s
-          | RTools _ results _ => exec_chat (map tool_msg results) s
+          | RTools _ (Ok results) _ => exec_chat (map tool_msg results) s
+          | RTools _ (Err e) _ => (Err (cToolsBase + e), s)   (* the concatenation of the tools node's stream fails *)
+          | RTools _ Panic _ => (Panic, s)
           | _ => (Err cType, s)
           end
         else if N.eqb k kTools then
